@@ -494,7 +494,7 @@ fn temp_prefix_variants(snap: &Path, base: &Path, tag: usize) -> Vec<PathBuf> {
     out
 }
 
-fn crc32(data: &[u8]) -> u32 {
+pub(crate) fn crc32(data: &[u8]) -> u32 {
     let mut crc = 0xFFFF_FFFFu32;
     for &b in data {
         crc ^= b as u32;
@@ -831,6 +831,24 @@ fn run_local_put(p: &Plan, rep: &mut RunReport, root: &Path) {
                             }
                         },
                         Err(e) => rep.violate("C19.a", "local-put:new-xorb-broken", format!("{ctx}: exists() on the new xorb fails: {e}")),
+                    }
+                    // what the store itself lists as its entries (its own notion of a final name, whatever the file
+                    // is called) is complete: every listed entry reads back as one of the xorbs that were put
+                    match c.get_all_entries() {
+                        Ok(keys) => {
+                            for k in keys {
+                                let known = prior.iter().chain(std::iter::once(&newx)).find(|b| m_of(&b.hash) == k.hash);
+                                let ok = match (known, c.get(&k.hash)) {
+                                    (Some(b), Ok(d)) => d == b.data && k.prefix == "default",
+                                    _ => false,
+                                };
+                                if !ok {
+                                    rep.violate("C19.a", "local-put:listed-entry-incomplete", format!("{ctx}: the store lists entry {}.{} which does not read back as a stored xorb", k.prefix, k.hash.hex()));
+                                }
+                            }
+                            rep.count("probe:store_listing_checked_after_restart", 1);
+                        },
+                        Err(e) => rep.violate("C19.c", "local-put:listing-error", format!("{ctx}: get_all_entries failed on the crash state: {e}")),
                     }
                     rep.count("restarts_checked", 1);
                     drop(c);
